@@ -1,9 +1,9 @@
 #!/bin/bash
 # usage: tools/process_seeds.sh <dir with 1 2 3> <PROP> <id-prefix>  : confirm, keep (if confirmed), run own check
 d=$1; prop=$2; prefix=$3
-for k in 1 2 3; do [ -f $d/$k/patch.diff ] && echo $d/$k; done | xargs -P 3 -n 1 /verif/tools/confirm_seed.sh > $d/confirm.log 2>&1
+for k in 1 2 3 4; do [ -f $d/$k/patch.diff ] && echo $d/$k; done | xargs -P 4 -n 1 /verif/tools/confirm_seed.sh > $d/confirm.log 2>&1
 cat $d/confirm.log
-for k in 1 2 3; do
+for k in 1 2 3 4; do
   line=$(grep "$d/$k " $d/confirm.log | cut -d' ' -f2-)
   if echo "$line" | grep -q "demo_clean_exit=0 demo_patched_exit=[1-9][0-9]* suite_exit=0 45 passed"; then
     /verif/tools/keep_seed.py $d/$k $prefix-$k $prop "$line" > /dev/null
